@@ -552,7 +552,7 @@ def nz(t, tgt):
     return (vs[1], vs[0]) if t != M.BOOL else (1,)
 
 
-def gen_cond(part, tgt):
+def gen_cond(part, tgt, quick=False):
     if part == 'int':
         for tc_ in M.INTS:
             cv = M.values(tc_, tgt)
@@ -562,8 +562,9 @@ def gen_cond(part, tgt):
                     cell = ('?:', ta.kind, tb.kind)
                     tcl = tclass(M.usual_arith(ta, tb, tgt), tgt)
                     for c in conds:
-                        for va in nz(ta, tgt):
-                            for vb in nz(tb, tgt):
+                        pairs = [(va, vb) for va in nz(ta, tgt) for vb in nz(tb, tgt)]
+                        for va, vb in (pairs[:1] + pairs[-1:] if quick else pairs):
+                            if True:
                                 yield mkcase('cond', cell, ('cond', ('val', tc_, c), ('val', ta, va), ('val', tb, vb)), tgt, 'cond', tcl)
     elif part == 'float':
         for tc_ in (M.FLOAT, M.DOUBLE):
@@ -768,7 +769,7 @@ def _job(spec):
     elif stratum == 'cast':
         gen = gen_cast(spec[1], tgt, spec[2])
     elif stratum == 'cond':
-        gen = gen_cond(spec[1], tgt)
+        gen = gen_cond(spec[1], tgt, spec[2])
     elif stratum == 'misc':
         gen = gen_misc(tgt)
     elif stratum == 'lit':
@@ -940,7 +941,7 @@ def main(chk):
         if chk.want('cast'):
             jobs += [('cast', t.kind, None, cls) for t in M.T13]
         if chk.want('cond'):
-            jobs += [('cond', p, cls) for p in ('int', 'float', 'logic')]
+            jobs += [('cond', p, q, cls) for p in ('int', 'float', 'logic')]
         if chk.want('misc'):
             jobs.append(('misc', cls))
         if chk.want('flit'):
@@ -952,7 +953,9 @@ def main(chk):
     if chk.want('lit'):
         jobs.append(('lit', 's'))
     random.Random(chk.seed).shuffle(jobs)
-    jobs.sort(key=lambda j: j[0] not in ('misc', 'cond', 'lit'))      # the long jobs first
+    jobs.sort(key=lambda j: 0 if j[0] in ('misc', 'cond', 'lit') else 2 if j[0] == 'depth2' else 1)      # long jobs first, depth 2 last
+    if not q and not os.environ.get('VERIF_DEADLINE_S'):
+        chk.deadline = min(chk.deadline, chk.t0 + 1260)      # leave time for the witnesses inside the 30 minute budget
     chk.log('%d jobs' % len(jobs))
 
     strata, cells, values, recs, sanity, samples = {}, set(), set(), [], [], []
